@@ -467,6 +467,12 @@ func ResponseCorpus(dir string) []CorpusEntry {
     get:
       responses:
         '200': {description: a list declared in place, content: {application/json: {schema: {type: array, items: {type: string}}}}}
+  /problems:
+    get:
+      responses:
+        '200': {description: ok}
+        '409': {description: a JSON media type that is not application/json, content: {application/problem+json: {schema: {$ref: '#/components/schemas/Err'}}}}
+        '422': {$ref: '#/components/responses/Problem'}
 components:
   schemas:
     Pet: {type: object, required: [name], properties: {name: {type: string}, tag: {type: string}}}
@@ -475,6 +481,7 @@ components:
     NotFound: {description: nf, content: {application/json: {schema: {$ref: '#/components/schemas/Err'}}}}
     Error: {description: err, headers: {X-Err: {schema: {type: string}}}, content: {application/json: {schema: {$ref: '#/components/schemas/Err'}}}}
     Created: {description: created, headers: {Location: {required: true, schema: {type: string}}}}
+    Problem: {description: problem, content: {application/problem+json: {schema: {$ref: '#/components/schemas/Err'}}}}
 `
 	spec2 := specHead + `paths:
   /pets:
